@@ -38,6 +38,9 @@ BUILTIN_EXC = {
     "socket.timeout": "OSError",
     "TimeoutError": "OSError",
     "ConnectionError": "OSError",
+    "ConnectionResetError": "ConnectionError",
+    "ConnectionRefusedError": "ConnectionError",
+    "BrokenPipeError": "ConnectionError",
     "StopIteration": "Exception",
     "RuntimeError": "Exception",
     "NotImplementedError": "RuntimeError",
@@ -67,10 +70,15 @@ def exc_name(expr) -> Optional[str]:
     return None
 
 
+EXC_ALIASES = {"socket.error": "OSError", "IOError": "OSError", "EnvironmentError": "OSError", "OSError": "OSError", "socket.timeout": "TimeoutError", "builtins.OSError": "OSError"}
+
+
 def exc_is_subclass(name: Optional[str], parent: Optional[str], hierarchy=BUILTIN_EXC) -> Optional[bool]:
     """True/False when decidable from the hierarchy, None when unknown."""
     if name is None or parent is None:
         return None
+    # names Python binds to the same class
+    name, parent = EXC_ALIASES.get(name, name), EXC_ALIASES.get(parent, parent)
     if parent in ("BaseException",):
         return True
     seen = set()
